@@ -11,11 +11,15 @@ MANIFEST = {
             "equal constants get equal offsets for ever, placed constants agree wherever they overlap, a refused add changes nothing, every "
             "image has length = size, carries each constant at its offset, is zero elsewhere, and the reported alignment is a multiple of every "
             "constant's size. The model is tied to the real ConstPool by running both on the same histories and comparing every answer and the "
-            "complete internal state (gap lists, trees in traversal order); the Lean monitor judges every answer of the real code.",
+            "complete internal state (gap lists, trees in traversal order); the Lean monitor judges every answer of the real code. "
+            "Further theorems: embed_const_pool is refused exactly for invalid/bound labels and otherwise binds the label at a multiple of the alignment "
+            "in front of a correct image; every constant a Compiler hands out (local or global scope, any number of functions) is found at label+offset "
+            "in the finalized section, aligned to its size.",
     "note": "Trusted: Lean kernel; Spec/ConstPool.lean as the meaning of the property; harness/driver/diff. Abstracted: the red-black tree is an "
             "ordered association list (C18), arena allocation never fails (C15), Node::_offset is Nat not uint32 (pools < 4 GiB). "
-            "embed_const_pool is modelled for its data effect (align + bind + fill) on x86/a64 Assembler and Builder; "
-            "BaseCompiler::_new_const is exercised by the harness and judged by the monitor only (tested, not proved).",
+            "embed_const_pool (label checks, align, bind, fill; x86/a64 Assembler and Builder) and the Compiler's constants (_new_const, local pool "
+            "at end_func, GlobalConstPoolPass, serialisation) are modelled in Model/ConstPoolEmit.lean, tied by the es/cc lines and proved "
+            "(compile_const_in_image). Node::_offset uint32: Model/ConstPool32.lean, equal to the Nat model below 4 GiB (proved), diverging witness beyond.",
 }
 MODS = ["AsmjitVerif.Props.C19"]
 VALID = (1, 2, 4, 8, 16, 32, 64)
@@ -243,11 +247,22 @@ def cc_monitor_lines(case, answer):
                 groups.setdefault(w[2], ["m-new"]).append("m-add %s err %s %s" % (it[2:], w[1], " ".join(w[3:])))
             else:
                 return None
+    # which pools MUST be in the section after finalize (meaning of the property, not of the implementation): a global pool
+    # always; a local pool if an end_func succeeded after the pool came into being
+    must = set()
+    for k, (it, an) in enumerate(zip(items, answers)):
+        w = an.split()
+        if it[0] in "lg" and it[1:2] == ":" and len(w) == 6:
+            pk = w[1] if w[0] == "ok" else w[2]
+            if it[0] == "g" or any(i2 == "E" and a2 == "ok" for i2, a2 in list(zip(items, answers))[k + 1:]):
+                must.add(pk)
     out = []
     for pk, lines in groups.items():
         if pk not in pools:
             return None
         off, size, align = pools[pk]
+        if off == "unbound" and pk in must:
+            lines.append("m-fill pool-never-embedded")
         if off != "unbound":
             end = int(off) + int(size)
             lines.append("m-embed cc cc - emb %s %s %s %s" % (off, size, align, secb[:2 * end] or "-"))
@@ -337,8 +352,11 @@ def run(res):
     res.assumptions += [
         "ConstPool::Tree (red-black tree) = association list in memcmp order (balance and memory safety: C18)",
         "arena allocation inside add never fails (C15); Node::_offset is uint32 in C++, Nat in the model (pool < 4 GiB)",
-        "BaseCompiler::_new_const / GlobalConstPoolPass are exercised by the harness and judged by the monitor, not modelled",
-        "embed_const_pool is modelled for its effect on the section bytes and the label offset (x86 pad 0xCC, a64 pad 0x00)"]
+        "Compiler functions are `void f()` without frame: prolog empty, epilog `ret` (x86 c3, a64 c0035fd6) - bytes the model takes as parameters; "
+        "nested add_func is not modelled (never generated)",
+        "embed_const_pool / bind are modelled for their effect on the section bytes and the label table (x86 pad 0xCC, a64 pad 0x00); "
+        "buffer growth failure (C15) is not modelled",
+        "Node::_offset uint32 / int32 displacement: add32 = add proved below 4 GiB; sizes beyond are proved on the model only (witness theorems)"]
     broken = []
 
     ok, out = vlib.lean_stage(res, PID, MODS)
